@@ -229,10 +229,7 @@ func runC01(c *kit.Ctx) {
 			key := k.key(s.Fn, "call VerifyHash")
 			harg := argOf(s.Instr.Common(), 2)
 			he := kit.Canon(harg)
-			if he.IsCallTo(sha1New) {
-				c.OK("R01.3", key, posOf(s.Instr), "hasher is a fresh sha1.New()")
-				continue
-			}
+			_ = he
 			fresh := (&kit.Flow{P: c.Prog, Fn: s.Fn, Instr: func(ins ssa.Instruction, in bool) bool {
 				if v, ok := ins.(ssa.Value); ok && v == harg {
 					if kit.Canon(v).IsCallTo(sha1New) {
@@ -264,6 +261,9 @@ func runC01(c *kit.Ctx) {
 		}
 		c.Floor("R01.3", "VerifyHash call sites", sites, 2)
 	}
+
+	// ---- R01.10 write errors are not masked (Done/bit only after a *successful* write)
+	checkWriteErrorDiscipline(c, k, "R01.10")
 
 	runC01Marks(c, k, fHashOK, fError, verifyHash)
 	runC01Rest(c, k, fHashOK)
